@@ -8,6 +8,9 @@ BASE_NOTE = "Trusted base: Go 1.26.8 toolchain (testing/synctest for the virtual
 
 # property -> (technique, level text, design ref, extra note)
 CLAIMED = {
+ "C18": ("model-based event-sequence search in a synctest bubble against the bare monitors and against datagram/stream connections with a scripted peer answering pings on the wire",
+         "Generated {message, pong (current or superseded), tick} sequences with virtual gaps around the period (20k quick / 400k thorough), replayed on a reference model: exact iff-condition for the inactivity monitor, safety (no early close) and bounded liveness for keep-alive.",
+         "DESIGN.md 3/C18", ""),
  "C08": ("exhaustive grid for the freshness predicate + model-based notification-stream search in a synctest bubble (datagram and stream transports)",
          "The RFC 7641 3.4 predicate is compared on a grid of sequence-number pairs around 0 / 2^23 / 2^24-1 x time differences around 128 s; the end-to-end half drives real client connections with generated registration answers, notification streams (virtual inter-arrival times up to 200 s) and Cancel at every position, with a per-observation model of the last delivered notification as oracle.",
          "DESIGN.md 3/C08", ""),
